@@ -686,6 +686,86 @@ func Equal(a, b interface{}) bool {
 	return deepEq(reflect.ValueOf(a), reflect.ValueOf(b))
 }
 
+// Same: structural equality of two values whose types may differ in name only
+// (C18: the same API generated from two forms of one spec).
+func Same(a, b interface{}) bool {
+	if a == nil || b == nil {
+		return a == nil && b == nil
+	}
+	return sameEq(reflect.ValueOf(a), reflect.ValueOf(b))
+}
+
+func sameEq(a, b reflect.Value) bool {
+	ta, tb := a.Type(), b.Type()
+	isTime := func(t reflect.Type) bool { return t.Kind() == reflect.Struct && t.ConvertibleTo(timeType) }
+	if isTime(ta) || isTime(tb) {
+		if !isTime(ta) || !isTime(tb) {
+			return false
+		}
+		return a.Convert(timeType).Interface().(time.Time).Equal(b.Convert(timeType).Interface().(time.Time))
+	}
+	if ta == rawType || tb == rawType {
+		if ta != tb {
+			return false
+		}
+		return deepEq(a, b)
+	}
+	if ta.Kind() != tb.Kind() {
+		return false
+	}
+	switch ta.Kind() {
+	case reflect.Struct:
+		if ta.NumField() != tb.NumField() {
+			return false
+		}
+		for i := 0; i < ta.NumField(); i++ {
+			if !sameEq(a.Field(i), b.Field(i)) {
+				return false
+			}
+		}
+		return true
+	case reflect.Slice, reflect.Array:
+		if a.Len() != b.Len() {
+			return false
+		}
+		for i := 0; i < a.Len(); i++ {
+			if !sameEq(a.Index(i), b.Index(i)) {
+				return false
+			}
+		}
+		return true
+	case reflect.Map:
+		if a.Len() != b.Len() {
+			return false
+		}
+		for _, k := range a.MapKeys() {
+			bv := b.MapIndex(k.Convert(tb.Key()))
+			if !bv.IsValid() || !sameEq(a.MapIndex(k), bv) {
+				return false
+			}
+		}
+		return true
+	case reflect.Ptr, reflect.Interface:
+		if a.IsNil() || b.IsNil() {
+			return a.IsNil() && b.IsNil()
+		}
+		return sameEq(a.Elem(), b.Elem())
+	case reflect.Func:
+		return a.IsNil() && b.IsNil()
+	case reflect.Bool:
+		return a.Bool() == b.Bool()
+	case reflect.String:
+		return a.String() == b.String()
+	case reflect.Float32, reflect.Float64:
+		return a.Float() == b.Float()
+	case reflect.Int, reflect.Int8, reflect.Int16, reflect.Int32, reflect.Int64:
+		return a.Int() == b.Int()
+	case reflect.Uint, reflect.Uint8, reflect.Uint16, reflect.Uint32, reflect.Uint64:
+		return a.Uint() == b.Uint()
+	}
+	return false
+}
+
 // ---------------------------------------------------------------- file-system vocabulary (C19, C01)
 
 var fsDirs = map[int]string{}
